@@ -2131,3 +2131,8 @@ func countedFrom(phi *ssa.Phi) (int64, bool) {
 	}
 	return start, haveStart && haveStep
 }
+
+func isBoolType(t types.Type) bool {
+	b, ok := t.Underlying().(*types.Basic)
+	return ok && b.Info()&types.IsBoolean != 0
+}
